@@ -371,6 +371,15 @@ func run(r *core.Run) {
 			}
 			for off := 12; off+8 <= len(prot); off += 8 {
 				if bytes.Contains(got, prot[off:off+8]) && !bytes.Contains(want, prot[off:off+8]) {
+					if !winok {
+						// a position INSIDE the clear window decodes as a container start (false `%%%`+length+id header):
+						// the scan replaces it by the pattern, advances by ITS declared length and so steps over the
+						// real container's header – the rest of the container is shown raw. In-band signalling,
+						// inherent in the stored format (DESIGN §7 C11 "Deviation", hypothesis `maskWindowOk` of the
+						// read theorems); recorded, compared with the model, not judged
+						r.Tag("window:false-header-shows-container-bytes")
+						break
+					}
 					r.Fail("mask-leak-cipher", "a reader without the key received ciphertext bytes")
 					break
 				}
